@@ -2,6 +2,7 @@ package cli
 
 import (
 	"fmt"
+	"path"
 	"sort"
 	"strings"
 
@@ -11,6 +12,15 @@ import (
 )
 
 // C04 — staging is exact: add and rm change precisely the named paths.
+
+// cleanArgs brings path arguments to their canonical spelling ("./a//b/../c" -> "a/c").
+func cleanArgs(args []string) []string {
+	out := make([]string, len(args))
+	for i, a := range args {
+		out[i] = path.Clean(a)
+	}
+	return out
+}
 
 func blobID(content string) string { return gitfmt.HashObject("blob", []byte(content)) }
 
@@ -62,7 +72,7 @@ func oracleAdd(c *Ctx) error {
 	if c.Res.Panic || c.Res.Timeout {
 		return fmt.Errorf("add crashed or hung")
 	}
-	args := c.Step.Args[1:]
+	args := cleanArgs(c.Step.Args[1:])
 	pre := c.Pre
 	// classification of the arguments
 	refuse := len(args) == 0
@@ -179,7 +189,7 @@ func oracleRm(c *Ctx) error {
 	if c.Res.Panic || c.Res.Timeout {
 		return fmt.Errorf("rm crashed or hung")
 	}
-	args := c.Step.Args[1:]
+	args := cleanArgs(c.Step.Args[1:])
 	pre := c.Pre
 	named := map[string]bool{}
 	valid := len(args) > 0
@@ -251,6 +261,16 @@ func oracleRm(c *Ctx) error {
 		}
 		return unchangedAll(c, "rm was refused")
 	}
+	occupied := false
+	for p := range named {
+		if pre.Work.Dirs[p] || underFile(pre, p) {
+			occupied = true // a tracked path whose place in the working tree is taken by a directory / lies beneath a file
+		}
+	}
+	if c.Res.Exit != 0 && occupied {
+		stats.Label("rm:path-occupied-by-directory")
+		return nil // the state rules above were checked: in particular no untracked file was removed
+	}
 	if c.Res.Exit != 0 {
 		if overlap {
 			stats.Label("rm:overlapping-args-failed")
@@ -262,7 +282,7 @@ func oracleRm(c *Ctx) error {
 		if _, ok := c.Post.IdxMap[p]; ok {
 			return fmt.Errorf("after rm %q, %q is still staged", args, p)
 		}
-		if _, ok := c.Post.Work.Files[p]; ok {
+		if _, ok := c.Post.Work.Files[p]; ok && !occupied {
 			return fmt.Errorf("after rm %q, %q is still in the working tree", args, p)
 		}
 	}
@@ -302,4 +322,4 @@ var profStage = register(&Profile{
 	Classify: classifyStage,
 })
 
-var stageWeights = Weights{"write-new": 20, "modify": 12, "remove-file": 10, "rmdir": 4, "recreate": 4, "add": 30, "add-invalid": 3, "rm": 12, "rm-invalid": 3, "commit": 6, "reset": 4, "touch": 2, "rewrite-same": 2}
+var stageWeights = Weights{"write-new": 20, "modify": 12, "remove-file": 10, "rmdir": 4, "recreate": 4, "add": 30, "add-invalid": 3, "rm": 12, "rm-invalid": 3, "file2dir": 4, "commit": 6, "reset": 4, "touch": 2, "rewrite-same": 2}
